@@ -44,6 +44,7 @@ type State struct {
 	// ghost call trace
 	calls    Term // Array Int Event
 	callsLen Term
+	callsR   [3]Term // results of the recorded calls (flattened, Int)
 
 	locks  map[string]lockMode // held locks by location string
 	iters  map[*ssa.Range]Term // ghost "seen" sets of map iterators
@@ -75,6 +76,9 @@ func (e *Engine) newState() *State {
 	st.calls = e.ctx.Const("calls0", ArrSort(SInt, SEvent))
 	st.callsLen = e.ctx.Const("callsLen0", SInt)
 	st.pc = append(st.pc, Le(IntLit(0), st.callsLen))
+	for i := range st.callsR {
+		st.callsR[i] = e.ctx.Const(fmt.Sprintf("callsR%d_0", i), ArrSort(SInt, SInt))
+	}
 	return st
 }
 
@@ -509,4 +513,21 @@ func (e *Engine) heapKeysWithPrefix(prefix string) []string {
 	}
 	sort.Strings(out)
 	return out
+}
+
+// havocTrace: the trace may have been extended by unknown events; the prefix
+// recorded so far is kept.
+func (st *State) havocTrace() {
+	e := st.e
+	oc, ol, or := st.calls, st.callsLen, st.callsR
+	st.calls = e.ctx.Fresh("calls", ArrSort(SInt, SEvent))
+	st.callsLen = e.ctx.Fresh("callsLen", SInt)
+	st.assume(Le(ol, st.callsLen))
+	j := T("j!q", SInt)
+	same := []Term{Eq(Select(st.calls, j), Select(oc, j))}
+	for i := range st.callsR {
+		st.callsR[i] = e.ctx.Fresh(fmt.Sprintf("callsR%d", i), ArrSort(SInt, SInt))
+		same = append(same, Eq(Select(st.callsR[i], j), Select(or[i], j)))
+	}
+	st.assume(Forall([]Term{j}, Implies(And(Le(IntLit(0), j), Lt(j, ol)), And(same...))))
 }
